@@ -5,40 +5,39 @@ namespace SqVerif.Gen.EprGuards
 open SqVerif.Adjacency
 
 /- cmd_epr, statement by statement (remote-name variable: remote_node_name)
-     guardUnknown  line 391  for remote_node_name, remote_host in self.factory.qnodeos_net.hostDict
-     other         line 398  self._logger.debug(f'Creating EPR with {remote_node_name} on socket {e
-     guardSelf     line 401  if self.name == remote_node_name:
-     guardAdjacent line 405  if not self.factory.is_adjacent(remote_node_name):
-     other         line 411  second_qubit_id = -(1 + qubit_id)
-     cmdNew        line 412  for q_id in [qubit_id, second_qubit_id]:
-     cmdNew        line 412  for q_id in [qubit_id, second_qubit_id]:
-     unrecog       line 418  h_gate = self._get_simulaqron_gate(instr=instructions.vanilla.GateHIns
-     unrecog       line 419  yield self.apply_single_qubit_gate(gate=h_gate, qubit_id=qubit_id)
-     unrecog       line 423  cnot_gate = self._get_simulaqron_gate(instr=instructions.vanilla.CnotI
-     unrecog       line 424  yield self.apply_two_qubit_gate(gate=cnot_gate, qubit_id1=qubit_id, qu
-     unrecog       line 432  ent_id = self.new_ent_id(epr_socket_id=epr_socket_id, remote_node_id=r
-     unrecog       line 437  if create_request.type == RequestType.K:
-     unrecog       line 499  self._handle_epr_response(response=ent_info)
-     other         line 500  self._logger.debug('finished cmd_epr')
+     guardUnknown  line 406  for remote_node_name, remote_host in self.factory.qnodeos_net.hostDict
+     other         line 413  self._logger.debug(f'Creating EPR with {remote_node_name} on socket {e
+     guardSelf     line 416  if self.name == remote_node_name:
+     other         line 422  second_qubit_id = -(1 + qubit_id)
+     cmdNew        line 423  for q_id in [qubit_id, second_qubit_id]:
+     cmdNew        line 423  for q_id in [qubit_id, second_qubit_id]:
+     unrecog       line 429  h_gate = self._get_simulaqron_gate(instr=instructions.vanilla.GateHIns
+     unrecog       line 430  yield self.apply_single_qubit_gate(gate=h_gate, qubit_id=qubit_id)
+     unrecog       line 434  cnot_gate = self._get_simulaqron_gate(instr=instructions.vanilla.CnotI
+     unrecog       line 435  yield self.apply_two_qubit_gate(gate=cnot_gate, qubit_id1=qubit_id, qu
+     unrecog       line 443  ent_id = self.new_ent_id(epr_socket_id=epr_socket_id, remote_node_id=r
+     unrecog       line 448  if create_request.type == RequestType.K:
+     unrecog       line 510  self._handle_epr_response(response=ent_info)
+     other         line 511  self._logger.debug('finished cmd_epr')
 -/
 def cmdEprStmts : List Stmt := [
-  .guardUnknown, .other, .guardSelf, .guardAdjacent, .other, .cmdNew,
-  .cmdNew, .unrecog, .unrecog, .unrecog, .unrecog, .unrecog,
-  .unrecog, .unrecog, .other
+  .guardUnknown, .other, .guardSelf, .other, .cmdNew, .cmdNew,
+  .unrecog, .unrecog, .unrecog, .unrecog, .unrecog, .unrecog,
+  .unrecog, .other
 ]
 
 /- _do_create_epr, every nested simple statement
-     other       line 304  create_request = self._get_create_request(subroutine_id=subroutine_id,
-     other       line 310  create_id = self._get_new_create_id(remote_node_id=remote_node_id)
-     other       line 311  remote_epr_socket_id = self._get_remote_epr_socket_id(epr_socket_id=ep
-     other       line 314  app_id = self._get_app_id(subroutine_id=subroutine_id)
-     other       line 315  if create_request.type == RequestType.K
-     other       line 316  num_qubits = len(self._app_arrays[app_id][q_array_address, :])
-     other       line 317  assert num_qubits == create_request.number, 'Not enough qubit addresse
-     other       line 319  self._epr_create_requests[remote_node_id, create_request.purpose_id].a
-     other       line 327  for ... in range(create_request.number)
-     other       line 328  qubit_id_host = self._get_unused_physical_qubit()
-     callCmdEpr  line 330  yield self.cmd_epr(create_id=create_id, remote_node_id=remote_node_id,
+     other       line 319  create_request = self._get_create_request(subroutine_id=subroutine_id,
+     other       line 325  create_id = self._get_new_create_id(remote_node_id=remote_node_id)
+     other       line 326  remote_epr_socket_id = self._get_remote_epr_socket_id(epr_socket_id=ep
+     other       line 329  app_id = self._get_app_id(subroutine_id=subroutine_id)
+     other       line 330  if create_request.type == RequestType.K
+     other       line 331  num_qubits = len(self._app_arrays[app_id][q_array_address, :])
+     other       line 332  assert num_qubits == create_request.number, 'Not enough qubit addresse
+     other       line 334  self._epr_create_requests[remote_node_id, create_request.purpose_id].a
+     other       line 342  for ... in range(create_request.number)
+     other       line 343  qubit_id_host = self._get_unused_physical_qubit()
+     callCmdEpr  line 345  yield self.cmd_epr(create_id=create_id, remote_node_id=remote_node_id,
 -/
 def doCreateEprStmts : List CallerStmt := [
   .other, .other, .other, .other, .other, .other,
